@@ -3,6 +3,8 @@
 //   sim --check C10 --tier quick --seed S --dump-plan I  print the plan of run I
 //   sim --replay FILE [--record-switches]                 execute an explicit plan
 //   sim --selftest                                        seam self-test
+#include <sys/mman.h>
+#include <sys/wait.h>
 #include <unistd.h>
 
 #include <cstdio>
@@ -74,6 +76,7 @@ int main(int argc, char **argv) {
     v.set("maxord", sj::Value::Int((int)MAXORD));
     v.set("default_init_tag_is_garbage", sj::Value::Bool(d != sim::TAG_OK && d != 0 && d != sim::TAG_DEAD));
     v.set("value_init_tag_is_zero", sj::Value::Bool(z[0].raw_tag() == 0));
+    v.set("library_thread_locals_virtualised", sj::Value::Int(sim::tls_virtualised_variables()));
     emit("SELFTEST", v);
     fflush(stdout);
     _exit(0);
@@ -121,28 +124,75 @@ int main(int argc, char **argv) {
     fprintf(stderr, "need --runs A:B\n");
     _exit(2);
   }
+  // One child process per run: every world starts from an image in which no
+  // library code has run yet (cold statics, no inheritance between runs), and a
+  // run that dies takes only itself down - the loop goes on with the next one.
+  struct BatchShared {
+    Counters cnt;
+    uint64_t probes[256];
+  };
+  bool isolate = getenv("SIM_NO_ISOLATE") == nullptr;
+  set_isolate(isolate);
+  BatchShared *sh = static_cast<BatchShared *>(
+      mmap(nullptr, sizeof(BatchShared), PROT_READ | PROT_WRITE, MAP_SHARED | MAP_ANONYMOUS, -1, 0));
+  if (sh == MAP_FAILED) {
+    fprintf(stderr, "mmap failed\n");
+    _exit(2);
+  }
+  new (sh) BatchShared();
   Counters cnt;
   RunOptions opt;
-  int violations = 0;
   for (long i = a; i < b; i++) {
     uint64_t s = run_seed(seed, check, (uint64_t)i);
-    Plan plan = make_plan(prof, s);
     sim::set_death_context(i, "run");
     printf("BEGIN %ld\n", i);
     fflush(stdout);
-    RunResult r = run_plan(plan, opt, cnt);
-    emit("RUN", result_to_json(r, i, s));
-    if (r.status == "violation") violations++;
+    fflush(stderr);
+    pid_t pid = isolate ? fork() : 0;
+    if (pid < 0) {
+      fprintf(stderr, "fork failed\n");
+      _exit(2);
+    }
+    if (pid == 0) {
+      Plan plan = make_plan(prof, s);
+      Counters local;
+      RunResult r = run_plan(plan, opt, local);
+      emit("RUN", result_to_json(r, i, s));
+      if (isolate) {
+        add_counters_public(sh->cnt, local);
+        uint64_t *pa = probe_array();
+        for (int k = 0; k < 256; k++) sh->probes[k] += pa[k];
+        fflush(stdout);
+        fflush(stderr);
+        _exit(0);
+      }
+      add_counters_public(cnt, local);
+    } else {
+      int st = 0;
+      while (waitpid(pid, &st, 0) < 0) {
+      }
+    }
     if ((i - a) % 256 == 255) {
+      if (isolate) {
+        cnt = sh->cnt;
+        uint64_t *pa = probe_array();
+        for (int k = 0; k < 256; k++) pa[k] = sh->probes[k];
+        new (sh) BatchShared();
+      }
       emit("SUMMARY", counters_to_json(cnt));
       cnt = Counters();
       uint64_t *pa = probe_array();
       for (int k = 0; k < 256; k++) pa[k] = 0;
     }
   }
+  if (isolate) {
+    cnt = sh->cnt;
+    uint64_t *pa = probe_array();
+    for (int k = 0; k < 256; k++) pa[k] = sh->probes[k];
+  }
   emit("SUMMARY", counters_to_json(cnt));
   printf("END\n");
   fflush(stdout);
   fflush(stderr);
-  _exit(violations ? 1 : 0);
+  _exit(0);
 }
